@@ -56,7 +56,7 @@ Inductive mop :=
 Record state := mkSt {
   sources : list node;        (* BuildInputs._sources in insertion order *)
   nodist : list node;         (* srcdir nodes some builtin created with dist=False *)
-  log : list (list node);     (* values the script holds: one entry per statement with a result *)
+  log : list (list node);     (* values the script holds: one (singleton) entry per file object a statement returned *)
   refs : list node;           (* nodes the edges / rules consume, hence the build file mentions *)
   listed : list node;         (* every include / not_now entry of every find call *)
   bootstrap : list node;      (* BuildInputs.bootstrap_paths during execution *)
@@ -82,7 +82,7 @@ Definition edge_make (st : state) (n : node) : state := if is_src n then add_sou
 Definition add_refs (st : state) (l : list node) : state :=
   mkSt (sources st) (nodist st) (log st) (refs st ++ l) (listed st) (bootstrap st) (seen st).
 Definition push_log (st : state) (l : list node) : state :=
-  mkSt (sources st) (nodist st) (log st ++ [l]) (refs st) (listed st) (bootstrap st) (seen st).
+  mkSt (sources st) (nodist st) (log st ++ map (fun n => [n]) l) (refs st) (listed st) (bootstrap st) (seen st).
 Definition add_listed (st : state) (l : list node) : state :=
   mkSt (sources st) (nodist st) (log st) (refs st) (listed st ++ l) (bootstrap st) (seen st).
 Definition add_seen (st : state) (n : node) : state :=
